@@ -85,14 +85,12 @@ theorem readCompFrame_allocs {o : ROpts} {decomp : Bytes → Nat → Option Byte
         · cases h
         · split at h
           · cases h
-          · split at h
-            · cases h
-            · rename_i hlen
-              cases h
-              have := hsz hb.2
-              constructor
-              · intro a ha; simp at ha; rcases ha with rfl | rfl <;> omega
-              · simp at hlen; omega
+          · rename_i hlen
+            cases h
+            have := hsz hb.2
+            constructor
+            · intro a ha; simp at ha; rcases ha with rfl | rfl <;> omega
+            · simp at hlen; omega
   · intro e al h
     split at h
     · cases h; intro a ha; cases ha
@@ -101,14 +99,12 @@ theorem readCompFrame_allocs {o : ROpts} {decomp : Bytes → Nat → Option Byte
       have hsz : ∀ {s : Int}, s ≤ Int.ofNat o.maxSize → s.toNat ≤ o.maxSize := by intro s hs; simp at hs; omega
       have := hsz hb.2
       split at h
-      · cases h; intro a ha; simp at ha; subst ha; exact hb.1
+      · cases h; intro a ha; simp at ha; rcases ha with rfl | rfl <;> omega
       · split at h
         · cases h; intro a ha; simp at ha; rcases ha with rfl | rfl <;> omega
         · split at h
           · cases h; intro a ha; simp at ha; rcases ha with rfl | rfl <;> omega
-          · split at h
-            · cases h; intro a ha; simp at ha; rcases ha with rfl | rfl <;> omega
-            · cases h
+          · cases h
 
 theorem readFrame_allocs {o : ROpts} {decomp : Bytes → Nat → Option Bytes} {code : Nat} {bs : Bytes} :
     (∀ p rest al, readFrame o decomp code bs = .ok p rest al → (∀ a ∈ al, a ≤ o.maxSize) ∧ p.length ≤ o.maxSize) ∧
